@@ -266,6 +266,11 @@ def first_output_difference(files_a, files_b):
     return None
 
 
+def test_files(res):
+    """The exported test files of a run (the observable of the property)."""
+    return {k: v for k, v in (res.get("files") or {}).items() if k.endswith(".py")}
+
+
 def diagnose(res_a, res_b):
     """Compare two finished runs of the same spec.  Returns {"kind": ..., "key": ..., ...}:
       same                 files, draw logs and execution logs identical
@@ -277,7 +282,8 @@ def diagnose(res_a, res_b):
       output-only          logs identical, files differ
     "files_same" tells whether the property's observable differs at all."""
     ta, tb = tap_of(res_a), tap_of(res_b)
-    out = {"files_same": res_a.get("files") == res_b.get("files")}
+    fa, fb = test_files(res_a), test_files(res_b)
+    out = {"files_same": fa == fb}
     d = first_divergence(ta, tb)
     e = first_exec_divergence(ta, tb)
     out["draw_divergence"] = None if d is None else {k: d[k] for k in ("index", "site_a", "site_b", "len_a", "len_b", "bits_a", "bits_b")}
@@ -307,7 +313,7 @@ def diagnose(res_a, res_b):
     if d is not None:
         out.update(kind="draws", key=f"diverges-at:{divergence_site(d)}", stack_a=d["stack_a"][:10], stack_b=d["stack_b"][:10])
         return out
-    fo = first_output_difference(res_a.get("files", {}), res_b.get("files", {}))
+    fo = first_output_difference(fa, fb)
     out["output_difference"] = fo
     if fo is None:
         out.update(kind="exec-only", key="executions-differ-after-last-draw")
@@ -382,3 +388,65 @@ def _fix_empty_test_timeout():
     shim = Shim("threading_shim")
     shim.Thread = Thread
     ex.threading = shim
+
+
+# ------------------------------------------------------------------------------------------------
+# seeded breaks (self-test of C16)
+# ------------------------------------------------------------------------------------------------
+@brk("unseeded-random-in-mutation")
+def _break_unseeded_random():
+    """A mutation operator that consults a generator seeded from the OS instead of randomness.RNG."""
+    import random
+
+    import pynguin.ga.operators.mutation as mut
+
+    own = random.Random()  # noqa: S311 - seeded from os.urandom: differs between any two interpreters
+    orig = mut.TestCaseMutation.mutate
+
+    def mutate(self, chromosome):
+        if own.random() < 0.25:
+            chromosome._mutation_insert()  # noqa: SLF001
+        return orig(self, chromosome)
+
+    mut.TestCaseMutation.mutate = mutate
+
+
+@brk("export-iterates-str-set")
+def _break_export_set():
+    """The export path builds the 'from <sut> import <names>' line from a set of str instead of a sorted list."""
+    import pynguin.testcase.export as export
+
+    def _public_sut_names(module, module_alias):
+        return list({name for name in dir(module) if not name.startswith("_") and name != module_alias})
+
+    export._public_sut_names = _public_sut_names  # noqa: SLF001
+
+
+@brk("variables-of-type-via-set")
+def _break_variables_via_set():
+    """TestCase.variables_of_type de-duplicates through a set of str: same number of draws, another variable chosen."""
+    import pynguin.testcase.testcase as tc
+
+    orig = tc.TestCase.variables_of_type
+
+    def variables_of_type(self, *a, **kw):
+        return list(set(orig(self, *a, **kw)))
+
+    tc.TestCase.variables_of_type = variables_of_type
+
+
+@brk("time-dependent-decision")
+def _break_time_dependent():
+    """A decision of the search taken on the wall clock although the budget is not a time budget."""
+    import time
+
+    import pynguin.ga.operators.mutation as mut
+
+    orig = mut.TestCaseMutation.mutate
+
+    def mutate(self, chromosome):
+        if time.time_ns() // 1000 % 4 == 0:
+            chromosome._mutation_insert()  # noqa: SLF001
+        return orig(self, chromosome)
+
+    mut.TestCaseMutation.mutate = mutate
